@@ -98,3 +98,19 @@ EXTERNS = {
                           notes='blocks until the result is set; re-raises its exception; a killed greenlet gets GreenletExit here'),
   'FailedFastError.__init__': dict(params=[], returns='any', ensures=['result is not None'], allocates=True),
 }
+
+CLASSES.update({
+  'ResPropsX': dict(extern=True, path=None, bases=[], fields={'initial_wait_interval': 'real', 'max_wait_interval': 'real', 'backoff_exponent': 'real'}),
+})
+FUNCTIONS.update({
+  # a new resurrector is up (no down mark), has no retry loop, and holds no underlying sink yet
+  'ResurrectorSink.__init__': dict(
+    cls='ResurrectorSink', params={'next_factory': 'NextProvider', 'sink_properties': 'ResPropsX', 'global_properties': 'any'}, returns='none',
+    requires=['allocated(sink_properties)', 'allocated(next_factory)'],
+    ensures=['ResInv(self)', 'not truthy(self._down_on)', 'self._resurrector is None', 'self._next is None',
+             'self._initial_wait_interval == sink_properties.initial_wait_interval and self._max_wait_interval == sink_properties.max_wait_interval and '
+             'self._backoff_exponent == sink_properties.backoff_exponent'],
+    modifies=['*'], allocates=True, drop=['Varz', 'ROOT_LOG'],
+    props=['C09'],
+  ),
+})
